@@ -89,6 +89,12 @@ class OP(Adapter):
         return TensorDict({"depot": locs[:, 0], "locs": locs[:, 1:], "prize": prize, "max_length": ml},
                           batch_size=[len(insts)])
 
+    def pad_choice(self, mask):
+        """finished rows are padded with the LAST admitted action: after the return to the depot only
+        the depot may be on offer, so any customer still offered to a finished row is picked (and
+        would re-open the episode: monitors PadC02 / batch pad-done)"""
+        return mask.shape[-1] - 1 - mask.flip(-1).int().argmax(-1)
+
     def project(self, td, r, inst):
         b = td.shape[0]
         tl = float(td["tour_length"].reshape(b, -1)[r, 0]) * inst["grid"]
